@@ -42,6 +42,15 @@ fn xor_in_place(buf: &mut [u8], key: &[u8], file_off: u64) {
     }
 }
 
+fn ntx(mode: u8, n: u64, hash: &[u8; 32]) -> u64 {
+    match mode {
+        0 => n,
+        1 => 0,
+        2 => n + 1,
+        _ => u32::from_le_bytes([hash[0], hash[1], hash[2], hash[3]]) as u64,
+    }
+}
+
 /// Writes the data directory. `faults` are stored-state faults for this run.
 pub fn build_world(scn: &Scenario, built: &Built, layout: &Layout, faults: &[DiskFault], dir: &Path) -> Result<WorldInfo, String> {
     let e = |x: std::io::Error| format!("world: {}", x);
@@ -118,7 +127,12 @@ pub fn build_world(scn: &Scenario, built: &Built, layout: &Layout, faults: &[Dis
                         }
                     }
                     let mut rec = Vec::with_capacity(payload.len() + 8);
-                    rec.extend_from_slice(&magic);
+                    match layout.magic_mode {
+                        0 => rec.extend_from_slice(&magic),
+                        1 => rec.extend_from_slice(&[0u8; 4]),
+                        2 => rec.extend_from_slice(&if magic == [0xfa, 0xbf, 0xb5, 0xda] { [0x0au8, 0x03, 0xcf, 0x40] } else { [0xfa, 0xbf, 0xb5, 0xda] }),
+                        _ => rec.extend_from_slice(&bb.hash[4..8]),
+                    }
                     rec.extend_from_slice(&(payload.len() as u32).to_le_bytes());
                     rec.extend_from_slice(&payload);
                     xor_in_place(&mut rec, &key, off);
@@ -237,14 +251,14 @@ pub fn build_world(scn: &Scenario, built: &Built, layout: &Layout, faults: &[Dis
             continue; // block not stored in this layout (index segment only)
         }
         // block 0 has no undo data in Bitcoin Core's index
-        let st = if h == 0 { 5 | 8 } else { STATUS_ACTIVE } | scn.index.active_extra_status;
-        records.push(mk(&bb.hash, h, st, scn.chain[i].txs.len() as u64, place, &bb.bytes));
+        let st = if h == 0 { 5 | 8 } else { STATUS_ACTIVE & !(scn.index.active_clear_status & !8) } | scn.index.active_extra_status;
+        records.push(mk(&bb.hash, h, st, ntx(scn.index.ntx_mode, scn.chain[i].txs.len() as u64, &bb.hash), place, &bb.bytes));
     }
     for (i, x) in scn.extras.iter().enumerate() {
         if let Some(ix) = &x.index {
             let bb = &built.extras[i];
             let place = info.extras[i].as_ref().map(|p| (p.file, p.pos));
-            records.push(mk(&bb.hash, ix.height, ix.status, x.block.txs.len() as u64, place, &bb.bytes));
+            records.push(mk(&bb.hash, ix.height, ix.status, ntx(scn.index.ntx_mode, x.block.txs.len() as u64, &bb.hash), place, &bb.bytes));
         }
     }
     for (k, v) in &scn.index.extra_keys {
